@@ -190,8 +190,11 @@ static void run_case(cs::Src& s, cs::Ctx& ctx) {
   o.max_depth = (size_t)s.range(1, 6);
   std::string bytes;
   static const unsigned wsrc[] = {8, 5, 5, 2};
-  unsigned src = (unsigned)s.pick(wsrc);
-  if (src == 3) {
+  bool raw = s.below(10) == 1;  // raw byte input (always under libFuzzer with the seed prefix)
+  unsigned src = raw ? 3 : (unsigned)s.pick(wsrc);
+  if (raw) {
+    bytes = s.take_bytes(s.mode() == cs::Src::BYTES ? 600 : 40);
+  } else if (src == 3) {
     size_t n = (size_t)s.below(s.coin() ? 12 : 200);
     for (size_t i = 0; i < n; i++) bytes += (char)s.below(256);
   } else {
